@@ -2312,7 +2312,114 @@ def iterable_once(prog: Program) -> RuleResult:
     return res
 
 
+# ---------------------------------------------------------------------------
+# BINARY-COARSENINGS
+
+
+def binary_coarsenings(prog: Program) -> RuleResult:
+    import itertools
+
+    from ..miniexec import MiniExec
+
+    res = RuleResult(
+        "BINARY-COARSENINGS",
+        "abstract execution of DisjointSet.binary (and its recursive helper) on the analyser's own partition model, "
+        "for every partition of 1..5 blocks and EVERY listing order of the block representatives (the order of "
+        "`list(set(...))` is arbitrary): the result consists of partitions with exactly two blocks, each a coarsening "
+        "of the start partition, all different, and all 2**(k-1) - 1 of them; a partition of one block has none",
+    )
+    modname = "utils.disjoint_set"
+    mod = prog.module(modname)
+    cls = prog.cls(modname, "DisjointSet")
+    fn = method_def(cls, "binary")
+    if fn is None:
+        raise AnalysisError("DisjointSet.binary not found")
+    self_name = func_params(fn)[0]
+
+    class Part:
+        """k blocks labelled by their representatives; unions recorded as a union-find over the labels."""
+
+        def __init__(self, reps, link=None):
+            self.reps = list(reps)
+            self.link = dict(link or {r: r for r in reps})
+
+        def root(self, x):
+            if x not in self.link:
+                raise AnalysisError("DisjointSet.binary: unite() is given something that is not a block representative")
+            while self.link[x] != x:
+                x = self.link[x]
+            return x
+
+        def model_unite(self, a, b):
+            ra, rb = self.root(a), self.root(b)
+            if ra == rb:
+                return False
+            self.link[ra] = rb
+            return True
+
+        def model_find(self, a):
+            return self.root(a)
+
+        def model_copy(self):
+            return Part(self.reps, self.link)
+
+        def blocks(self):
+            out = {}
+            for r in self.reps:
+                out.setdefault(self.root(r), set()).add(r)
+            return frozenset(frozenset(b) for b in out.values())
+
+    verdict = {"two-blocks": None, "no-repetition": None, "complete": None}
+    n_runs = 0
+    for k in range(1, 6):
+        reps = [3 * i + 1 for i in range(k)]
+        want = (2 ** (k - 1) - 1) if k >= 1 else 0
+        for order in itertools.permutations(reps):
+            n_runs += 1
+            start = Part(reps)
+
+            def special(me, expr, env, order=order, start=start):
+                # the list of block representatives, in this run's listing order
+                if any(isinstance(x, ast.Call) and isinstance(x.func, ast.Attribute) and x.func.attr == "find" for x in ast.walk(expr)):
+                    return list(order)
+                return NotImplemented
+
+            builtins = {
+                "deepcopy": lambda p: p.model_copy() if isinstance(p, Part) else (_ for _ in ()).throw(AnalysisError("deepcopy of a non-partition")),
+                "copy.deepcopy": lambda p: p.model_copy(),
+                "len": lambda x: len(x.blocks()) if isinstance(x, Part) else len(x),
+                "list": lambda x: list(x),
+                "__special__": special,
+            }
+            me = MiniExec("DisjointSet.binary", builtins)
+            out = me.call_function(fn, [start], {})
+            if not isinstance(out, list):
+                raise AnalysisError("DisjointSet.binary: result is not a list on the model")
+            shapes = []
+            for p in out:
+                if not isinstance(p, Part):
+                    raise AnalysisError("DisjointSet.binary: result contains something that is not a partition")
+                shapes.append(p.blocks())
+            where = f"{k} block(s) listed as {list(order)}"
+            bad2 = [sh for sh in shapes if len(sh) != 2]
+            if bad2 and verdict["two-blocks"] is None:
+                verdict["two-blocks"] = f"{where}: a returned partition has {len(bad2[0])} block(s)"
+            if len(set(shapes)) != len(shapes) and verdict["no-repetition"] is None:
+                verdict["no-repetition"] = f"{where}: {len(shapes) - len(set(shapes))} coarsening(s) returned more than once"
+            good = {sh for sh in shapes if len(sh) == 2}
+            if len(good) != want and verdict["complete"] is None:
+                verdict["complete"] = f"{where}: {len(good)} distinct two-block coarsenings returned, there are {want}"
+    for key, problem in verdict.items():
+        construct = f"{modname}:DisjointSet.binary/{key}"
+        if problem:
+            res.fail(construct, problem, mod, fn)
+        else:
+            res.ok(construct, f"{n_runs} runs: partitions of 1..5 blocks in every listing order")
+    return res
+
+
 RULES = {
+    "BINARY-COARSENINGS": binary_coarsenings,
     "PRIVATE-INDEX": private_index,
     "ITERABLE-ONCE": iterable_once,
     "UPDATE-ALL-CANDIDATES": update_all_candidates,
